@@ -9,6 +9,7 @@ mod store;
 mod values;
 mod ops;
 mod lexs;
+mod tables;
 mod parses;
 mod builds;
 mod heaps;
@@ -24,6 +25,7 @@ fn run_case(fields: &[&str]) -> String {
         "OP" => ops::op_case(fields),
         "LEX" => lexs::lex_case(fields),
         "CHARCLASS" => lexs::charclass_case(fields),
+        "TABLES" => tables::tables_case(fields, parses::all_token_types()),
         "PARSE" => parses::parse_case(fields),
         "BUILD" => builds::build_case(fields),
         "LIT" => builds::lit_case(fields),
